@@ -96,6 +96,25 @@ Theorem C05_handle_pre_sound : forall ng res resf pa pb,
   flags_okb res (handle_pre ng res resf pa pb) = true.
 Proof. exact handle_pre_sound. Qed.
 
+(** select: the mark rule (dyadic/structure.rs:1324-1414) is truthful when the result's rows are
+    the rows of the selected-from array at the in-bounds positions [is] (which is what "every index
+    is non-negative" guarantees: a negative index wraps to row_count + i) *)
+Theorem C05_select_marks_sound : forall b out fb (is : list nat) d,
+  flags_okb b fb = true ->
+  vrows out = map (fun i => nth i (vrows b) d) is ->
+  Forall (fun i => (i < length (vrows b))%nat) is ->
+  let iu := chain Nat.leb is in
+  let id := chain (fun x y => Nat.leb y x) is in
+  flags_okb out (FL false (iu && f_up fb || id && f_down fb) (iu && f_down fb || id && f_up fb)) = true.
+Proof. exact select_marks_sound. Qed.
+(** and a rule that looks at the first index only is not: `⊏ [1 0 ¯1] ⍆[30 10 20]` *)
+Theorem C05_select_first_index_rule_refuted :
+  let out := VByte [3%nat] [20; 10; 30]%N in
+  wf_shape out = true /\ flags_okb out (FL false false true) = false /\
+  rule_flags true RSelect [MV (VNum [3%nat] [4607182418800017408; 0; 13830554455654793216]%N) fl_none;
+                           MV (VByte [3%nat] [10; 20; 30]%N) (FL false true false)] out = Some fl_none.
+Proof. exact select_first_index_rule_refuted. Qed.
+
 (** non-vacuity: a non-trivial well-formed marked argument and a run of the model on it *)
 Example C05_nonvacuous :
   let a := MV (VBox [3]%nat [VNum [2]%nat [0; F_NEG_ZERO]%N; VByte []%nat [3]%N; VChar [1]%nat [97]%N]) (FL false false false) in
@@ -120,3 +139,5 @@ Print Assumptions C05_pre_signed_fixed_guard.
 Print Assumptions C05_pre_scalar_fixed_guard.
 Print Assumptions C05_pre_both_fixed_guard.
 Print Assumptions C05_handle_pre_sound.
+Print Assumptions C05_select_marks_sound.
+Print Assumptions C05_select_first_index_rule_refuted.
